@@ -279,13 +279,11 @@ class DecFileParser:
         if self._additional_decay_models is None:
             self._additional_decay_models = models
         else:
-            self._additional_decay_models = chain.from_iterable(
-                (self._additional_decay_models, models)
-            )
+            # A tuple, not a one-shot iterator: the names are read again every time the grammar is (re)loaded
+            self._additional_decay_models = (*self._additional_decay_models, *models)
 
         # The grammar may have been loaded already (e.g. via ``grammar()``): make sure it learns about the new models
         if self.grammar_loaded and self._grammar_info is not None:
-            self._additional_decay_models = tuple(self._additional_decay_models)
             self._grammar_info["edit_terminals"] = (
                 self._generate_edit_terminals_callback()
             )
